@@ -2,7 +2,7 @@
 // and appends, after the returned matrix, quantities evaluated in long double for the property probe:
 //
 //   ok <(D+1)^2 entries of H, row major> | q <ortho> <det> <bottom> <resid> <refscale> <dR> <dt> <costImpl> <costRef>
-//                                            <svdContract> <svdChecked> <sigma ratios: s1/s0 [s2/s0]>
+//                                            <svdContract> <detU*detV> <sigma ratios: s1/s0 [s2/s0]>
 //
 //   ortho   max |R^T R - I|                         det      det R            bottom  max |H(D,:) - (0..0 1)|
 //   resid   max_i |H src_i - tgt_i|_inf over the correspondences (ORIGINAL, un-preconditioned sets)
@@ -11,6 +11,7 @@
 //   costImpl/costRef  sums of squared residuals of the returned / the reference motion
 //   svdContract  max contract residual of Eigen::JacobiSVD on the very matrix the estimator decomposes
 //                (U,V orthogonal, S >= 0 descending, A = U S V^T relative to max|A|); monitored assumption
+//   detU*detV    negative iff the estimator's determinant correction fires on this input (branch coverage)
 // The model driver prints only the part before `|`.
 #include <algorithm>
 #include <vector>
@@ -201,8 +202,9 @@ std::string runFind(Mode mode, const std::vector<std::pair<size_t, size_t>> & co
   for (int k = 0; k < D; ++k) {
     if (!(sv(k) >= 0) || (k > 0 && !(sv(k) <= sv(k - 1)))) { contract = 1e30L; }
   }
+  LD detUV = static_cast<LD>(U.determinant()) * static_cast<LD>(V.determinant());
   out += " | q " + fmtLD(ortho) + " " + fmtLD(det) + " " + fmtLD(bottom) + " " + fmtLD(resid) + " " + fmtLD(refscale) + " " +
-    fmtLD(dR) + " " + fmtLD(dT) + " " + fmtLD(costI) + " " + fmtLD(costR) + " " + fmtLD(contract) + " 1";
+    fmtLD(dR) + " " + fmtLD(dT) + " " + fmtLD(costI) + " " + fmtLD(costR) + " " + fmtLD(contract) + " " + fmtLD(detUV);
   for (int k = 1; k < D; ++k) { out += " " + fmtLD(sv(0) > 0 ? static_cast<LD>(sv(k)) / sv(0) : 0); }
   return out;
 }
